@@ -27,13 +27,67 @@ def run_rules(module, program, tier):
     return ctx
 
 
+def _unknown_violations(ctx, prop):
+    known = load_known()
+    return [o for o in ctx.by_outcome(VIOLATED)
+            if known_entry(known, prop, o) is None]
+
+
+def decide(module, program, tier, strict=True):
+    '''Runs the rules of the property on the program as written; when they
+    do not pass (a violation that is not a known finding, or a rule that lost
+    its anchor) the helper-inlined normal form of the SAME program
+    (sa/inline.py) is consulted: a semantics-preserving view in which
+    extract-method refactorings are undone.  The result on that view is
+    adopted only if it is clean; otherwise the result on the program as
+    written stands.  Returns (ctx, view name).'''
+    ctx = run_rules(module, program, tier)
+    if strict:
+        try:
+            ctx.check_not_all_undecided()
+        except AnalysisError as err:
+            ctx.errors.append(str(err))
+    if not ctx.errors and not _unknown_violations(ctx, module.ID):
+        return ctx, 'as-written'
+    from . import inline
+    try:
+        overlay = inline.build_overlay(program)
+        if overlay == program.overlay:
+            return ctx, 'as-written'
+        prog_b = Program(overlay=overlay)
+        ctx_b = run_rules(module, prog_b, tier)
+        ctx_b.check_not_all_undecided()
+    except AnalysisError:
+        return ctx, 'as-written'
+    except Exception:   # pylint: disable=broad-except
+        return ctx, 'as-written'
+    # the rules that did not pass on the program as written must be fully
+    # DECIDED on the inlined view (an "undecided" there is not a pass)
+    failed = {o.rule for o in _unknown_violations(ctx, module.ID)}
+    for err in ctx.errors:
+        failed |= {r for r in set(ctx_b.rules()) | set(ctx.rules())
+                   if f'rule {r}' in err or f'{r}:' in err}
+    weak = [o for o in ctx_b.by_outcome(UNDECIDED) if o.rule in failed]
+    if not ctx_b.errors and not _unknown_violations(ctx_b, module.ID) and \
+            not weak:
+        ctx_b.stats['view'] = (
+            'helper-inlined normal form (sa/inline.py): the rules did not '
+            'pass on the program as written (' + '; '.join(
+                [f'{o.rule} at {o.at}' for o in
+                 _unknown_violations(ctx, module.ID)][:3] +
+                [e[:80] for e in ctx.errors[:2]]) + ') and pass on the '
+            'semantics-preserving view in which its helpers are inlined')
+        return ctx_b, 'helper-inlined'
+    return ctx, 'as-written'
+
+
 def _variant_job(args):
     '''Runs in a worker process (or inline).'''
     modname, overlay, tier = args
     module = importlib.import_module(modname)
     try:
         prog = Program(overlay=overlay)
-        ctx = run_rules(module, prog, tier)
+        ctx, _view = decide(module, prog, tier, strict=False)
         violated = [list(o.key) + [o.at] for o in ctx.by_outcome(VIOLATED)]
         if ctx.errors and not violated:
             return {'ok': False,
@@ -171,17 +225,17 @@ def main(argv=None):
         return 2
     try:
         program = Program()
-        ctx = run_rules(module, program, args.tier)
-        try:
-            ctx.check_not_all_undecided()
-        except AnalysisError as err:
-            ctx.errors.append(str(err))
+        ctx, view = decide(module, program, args.tier)
+        if view != 'as-written':
+            print(f'NOTE property={prop} decided on the {view} normal form')
         if ctx.errors and not ctx.by_outcome(VIOLATED):
             for err in ctx.errors:
                 print(f'ANALYSIS-ERROR property={prop} {err}')
             return 2
-        if ctx.errors:
+        if ctx.errors or view != 'as-written':
             # some rules gave up but others found violations: report those
+            # (the self-test edits the program as written: it is skipped when
+            # the verdict comes from the helper-inlined view)
             var_records, var_failures = [], []
         else:
             var_records, var_failures = run_variants(module, ctx, program,
